@@ -487,19 +487,35 @@ func ZZH_C09_Iterate() {
 func ZZH_C09_CopyTable() {
 	rows, cols := zzhShape()
 	t, m := zzhBuild(rows, cols)
+	nested := false
+	if rows > 0 && cols > 0 && zzvBool() {
+		nested = true
+		// a nested table in the first cell (itself holding a nested table on a further choice)
+		inner, _ := zzhBuild(1, 2)
+		if zzvBool() {
+			inner2, _ := zzhBuild(1, 1)
+			inner.Rows[0].Cells[1].Tables = []Table{*inner2}
+		}
+		t.Rows[0].Cells[0].Tables = []Table{*inner}
+	}
 	zzvFreeze(t, "source table during CopyTable")
 	cp := t.CopyTable()
 	zzvUnfreeze()
 	zzvAssert(cp != nil && zzhGridOK(cp), "copy: the copy is a well-formed grid")
 	zzvAssert(zzhTextsAre(cp, m), "copy: the copy holds the same texts")
-	zzvKnown("KF-C09-copytable-shares", "copy: shares")
-	zzvAssert(zzvDisjoint(cp, t), "copy: shares no mutable state with the original")
+	// one obligation per field path of the copy whose memory the original can reach; the listed
+	// finding names the paths that are shared on the pinned tree, any other path is new
+	zzvKnown("KF-C09-copytable-shares", "copy: Table.Properties is not shared|copy: Table.Grid is not shared|copy: TableRow.Properties is not shared|copy: TableCell.Properties is not shared|copy: Paragraph.Properties is not shared|copy: Run.Properties is not shared")
+	zzvAssertDisjoint(interface{}(cp), interface{}(t), "copy")
 	zzvKnownEnd("KF-C09-copytable-shares")
 	// editing the copy's rows/cells/text never shows in the original
 	if rows > 0 && cols > 0 {
 		cp.SetCellText(0, 0, "changed")
 		cp.AppendRow(nil)
 		zzvAssert(zzhTextsAre(t, m), "copy: editing rows and texts of the copy leaves the original's content alone")
+	}
+	if nested {
+		zzvReach("copied a table with nested tables")
 	}
 	zzvReach("copied")
 }
